@@ -51,6 +51,20 @@ def gen_scenario(seed, family="mixed"):
             u0.append(["shutdown", True, False])
         return {"kind": "plain", "max_workers": mw, "timeout": rnd.choice([None, 5]), "tasks": [{"body": "ok"}] * nt,
                 "family": family, "users": [u0], "sched": {"p_timeout": 0.1, "p_crash": 0.0, "max_crashes": 0}}
+    if family == "respawn":
+        # work, a pause long enough for every worker to time out, then more work - possibly fatal to the new worker
+        mw = rnd.choice([1, 1, 2])
+        n1, n2 = rnd.randint(0, 2), rnd.randint(1, 3)
+        tasks = [{"body": "ok"}] * n1 + [{"body": rnd.choice(["ok", "die", "die", "raise"])} for _ in range(n2)]
+        u0 = [["create"]] + [["submit", k] for k in range(n1)] + [["idle"]] * rnd.choice([10, 25, 40])
+        u0 += [["submit", k] for k in range(n1, n1 + n2)]
+        r = rnd.random()
+        if r < 0.3:
+            u0.append(["shutdown", True, False])
+        elif r < 0.4:
+            u0.append(["shutdown", False, False])
+        return {"kind": "plain", "max_workers": mw, "timeout": 5, "tasks": tasks, "family": family, "users": [u0],
+                "sched": {"p_timeout": rnd.choice([0.3, 0.6]), "p_crash": rnd.choice([0.0, 0.01]), "max_crashes": 1}}
     if family == "saturate":
         mw = rnd.choice([1, 2, 3])
         nt = mw + rnd.randint(0, 3)
@@ -73,7 +87,10 @@ def gen_scenario(seed, family="mixed"):
     u0 = [["create"]]
     ids = list(range(nt))
     split = nt if rnd.random() < 0.7 else rnd.randint(0, nt)
+    p_idle = 0.5 if family in ("timeouts", "crash", "leak") else 0.15
     for k in ids[:split]:
+        if use_timeout and rnd.random() < p_idle:
+            u0 += [["idle"]] * rnd.choice([3, 8, 20])
         u0.append(["submit", k])
         if rnd.random() < 0.15:
             u0.append(["cancel", rnd.choice(ids[:k + 1])])
@@ -161,7 +178,12 @@ def gen_reusable(seed, family="reuse"):
 def run_one(job):
     family, seed, props = job
     scen = gen_scenario(seed, family)
-    st, rec = W.forked(W.run_scenario, scen, W.random_chooser(seed, **scen["sched"]))
+    if os.environ.get("SWEEP_PCT"):
+        ch = W.pct_chooser(seed, depth=1 + seed % 4, p_timeout=scen["sched"].get("p_timeout", 0.0),
+                           p_crash=(0.5 if scen["sched"].get("p_crash", 0.0) > 0 else 0.0))
+    else:
+        ch = W.random_chooser(seed, **scen["sched"])
+    st, rec = W.forked(W.run_scenario, scen, ch)
     if st != "ok":
         return {"seed": seed, "status": st, "detail": rec}
     fails, known, facts = monitors.evaluate_attributed(scen, rec, props)
